@@ -37,9 +37,18 @@ VARIABLE u
 (* (PS is escaped by JSON like LS).                                           *)
 MoreNonAscii == {"AP", "AN", "AX", "ZW", "BOM", "PS", "NEL"}
 NonAscii == {"NA", "LS"} \cup MoreNonAscii
-Classes == {"SPC", "PCT", "AMP", "LT", "GT", "DQ", "BS", "NA", "C1", "LS"} \cup MoreNonAscii
+Classes == {"AL", "SPC", "PCT", "AMP", "LT", "GT", "DQ", "BS", "NA", "C1", "LS"} \cup MoreNonAscii
 Comps   == {"user", "pass", "host", "path", "query", "frag", "opaque"}
-NoSp    == [comp |-> "none", cls |-> "none"]
+NoSp    == [comp |-> "none", cls |-> "none", run |-> FALSE]
+(* Length: sp.run = TRUE makes the special character a RUN of k copies.  The   *)
+(* texts then hold one copy between the markers "RUN[" and "]RUN"; the harness *)
+(* repeats what is between them k times (k = 300 ... 20000).  Escaping is per  *)
+(* character, so the escaped form of a run is the run of the escaped forms:    *)
+(* every operator below treats the markers as ordinary tokens.  A URL dense in *)
+(* characters that encoding/json inflates (& < > to six bytes, U+2028, quotes)  *)
+(* has a JSON form several times longer than its text.                         *)
+RunOpen == "RUN["
+RunClose == "]RUN"
 
 Reject == <<"REJECT">>
 Pct(a, b) == <<"%", a, b>>
@@ -56,11 +65,12 @@ EscOf(cls) == CASE cls = "NA"  -> EscNA
                 [] cls = "PS"  -> Pct("E", "2") \o Pct("8", "0") \o Pct("A", "9")
                 [] cls = "NEL" -> Pct("C", "2") \o Pct("8", "5")
 
-In(cls) == IF cls = "PCT" THEN Pct("2", "F") ELSE <<cls>>
+In(cls) == IF cls = "PCT" THEN Pct("2", "F") ELSE IF cls = "AL" THEN <<"a">> ELSE <<cls>>
 
 (* what url.Parse followed by String() makes of one special character *)
 Out(comp, cls) ==
-    IF cls = "C1" /\ comp # "frag" THEN Reject                 \* invalid control character in URL
+    IF cls = "AL" THEN <<"a">>                                 \* a plain letter (only interesting as a run)
+    ELSE IF cls = "C1" /\ comp # "frag" THEN Reject                 \* invalid control character in URL
     ELSE IF comp \in {"query", "opaque"} THEN In(cls)          \* verbatim
     ELSE IF comp \in {"user", "pass"} THEN
         (IF cls \in {"AMP", "PCT"} THEN In(cls) ELSE Reject)   \* net/url: invalid userinfo
@@ -81,7 +91,9 @@ Out(comp, cls) ==
 
 ----------------------------------------------------------------------------
 (* Assembly, parameterised by the rendering of the special character. *)
-Sp(x, comp, f(_, _)) == IF x.sp.comp = comp THEN f(comp, x.sp.cls) ELSE <<>>
+Sp(x, comp, f(_, _)) == IF x.sp.comp # comp THEN <<>>
+                        ELSE IF x.sp.run /\ f(comp, x.sp.cls) # Reject THEN <<RunOpen>> \o f(comp, x.sp.cls) \o <<RunClose>>
+                        ELSE f(comp, x.sp.cls)
 InF(comp, cls) == In(cls)
 
 HasAuthority(x) == x.user # "none" \/ x.host \/ x.port
@@ -154,7 +166,10 @@ Shapes == [scheme : BOOLEAN, opaque : {FALSE}, user : {"none", "name", "namepw"}
 Present(x, comp) == CASE comp = "user" -> x.user # "none" [] comp = "pass" -> x.user = "namepw"
                       [] comp = "host" -> x.host [] comp = "path" -> x.path [] comp = "query" -> x.query = "some"
                       [] comp = "frag" -> x.frag = "some" [] comp = "opaque" -> x.opaque
-WithSpecial(x) == {[x EXCEPT !.sp = [comp |-> c, cls |-> k]] : c \in {c \in Comps : Present(x, c)}, k \in Classes}
+(* runs are offered on the shapes without userinfo, port and forced/empty parts *)
+RunShape(x) == x.user = "none" /\ ~x.port /\ x.query # "force" /\ x.frag # "empty" /\ x.scheme
+WithSpecial(x) == {[x EXCEPT !.sp = [comp |-> c, cls |-> k, run |-> r]] :
+                      c \in {c \in Comps : Present(x, c)}, k \in Classes, r \in (IF RunShape(x) THEN BOOLEAN ELSE {FALSE})}
 
 (* Shapes are the initial states, each steps to its variants with one special   *)
 (* character (so that TLC's workers share the enumeration).                     *)
